@@ -1,7 +1,7 @@
 #!/bin/bash
 # Sensitivity sweep: every own mutant and every seeded change against the check of its property.
 # usage: tools/sensitivity.sh [--baseline] [name ...]     output: one line per change
-cd /verif
+cd ${VERIF_ROOT:-/verif}
 declare -A PROP=( [gil_release]=C07 [ptm3_no_allow_rechunk]=C07 [imo_init_removed]=C18 [to_ww3_no_deepcopy]=C17
   [stack_dims_shallow_copy]=C17 [to_netcdf_no_deepcopy]=C17 [to_swan_append_mode]=C11 [to_octopus_swallow_oserror]=C11
   [to_swan_no_close]=C11 [json_partial_on_error]=C11 [swan_write_retry_once]=C11 )
@@ -16,7 +16,7 @@ for n in "${names[@]}"; do
   [ -z "$prop" ] && { echo "$n: unknown property"; continue; }
   W=/dev/shm/ws-sens-$$
   git -C /repo worktree add -q --detach $W HEAD || continue
-  if ! ( cd $W && git apply "/verif/$patch" ); then echo "$n ($prop): patch does not apply to HEAD"; git -C /repo worktree remove --force $W; continue; fi
+  if ! ( cd $W && git apply "${VERIF_ROOT:-/verif}/$patch" ); then echo "$n ($prop): patch does not apply to HEAD"; git -C /repo worktree remove --force $W; continue; fi
   b="-"
   if [ $BASE = 1 ]; then ( cd $W && /venv/bin/python setup.py build_ext --inplace >/dev/null 2>&1 ); b=$(tools/baseline.sh $W | head -1 | cut -d' ' -f2); fi
   t0=$(date +%s)
